@@ -23,7 +23,8 @@ PROP = {
                   "log API returns from memory, what it returns after the flush, the decoded lines of "
                   "querylog.json(.1), the stats API (totals, per-domain, per-client) and the raw bytes of stats.db "
                   "with the expectation: ignored => absent everywhere, not ignored => present exactly once; with "
-                  "anonymisation on every address anywhere has its last 16/80 bits zero.",
+                  "anonymisation on every address anywhere has its last 16/80 bits zero."
+                  " Configurations may hold overlapping CIDR clients (the most specific owns an address), queries may carry a ClientID no client is registered for, and after the flush a client may be marked ignore-querylog: the log API must then hide exactly its entries (only judged without anonymisation; with it, entries whose masked address falls under a currently ignored identifier are not asserted at the API level).",
     "level_note": "The two adapter functions of internal/home/clients.go (findMultiple, shouldCountClient) cannot be "
                   "imported into dnsforward; the server part restates them (FindLoose / Find over the real storage) and "
                   "the home_adapters part checks the real ones against the same ownership model. Wildcard rules on "
